@@ -41,6 +41,8 @@ FLOORS["quick"].update({'inf_stop_probes': 2})
 FLOORS["thorough"].update({'inf_stop_probes': 2})
 FLOORS["quick"].update({'net_split_plans_with_monitor': 25, 'stop_instants_of_other_numeric_type': 800})
 FLOORS["thorough"].update({'net_split_plans_with_monitor': 125, 'stop_instants_of_other_numeric_type': 4000})
+FLOORS["quick"].update({'post_escape_full_comparisons': 2000})
+FLOORS["thorough"].update({'post_escape_full_comparisons': 10000})
 PROFILE = {"weights": {"timeout": 5, "zero": 1, "wait": 3, "succeed": 2.5, "fail": 0.6, "spawn": 1.5, "join": 2,
                        "interrupt": 1.5, "cb": 0.7, "cond": 1.5, "chain": 0.3, "cbint": 0.2},
            "max_top": 5, "max_child_scripts": 3, "min_ev": 1, "max_ev": 3, "p_exact": 0.6, "p_raise": 0.08,
@@ -168,8 +170,11 @@ def run_split(ctx, prog, plan_, T, Tsteps, K, stats):
                     stats["stop_instants_of_other_numeric_type"] += 1
             if t <= env.now:
                 stats["refused_until"] += 1
-                n0, now0 = len(r.tape), env.now
+                n0, now0, peek0 = len(r.tape), env.now, env.peek()
                 res = r.run_call(until=targ)
+                if res[0] == "raise" and isinstance(res[1], ValueError) and env.peek() != peek0:
+                    viol.append(("refused-until-had-effect", "a refused run(until=t<=now) left something behind on the agenda",
+                                 {"t": t, "now": now0, "peek_before": peek0, "peek_after": env.peek()}))
                 if not (res[0] == "raise" and isinstance(res[1], ValueError)):
                     viol.append(("until-not-after-now-accepted", "run(until=t) with t <= now was not refused with ValueError",
                                  {"t": t, "now": now0, "result": repr(res)}))
